@@ -288,6 +288,25 @@ class Program:
                 self.impls.append(i)
             for n, t in j["traits"].items():
                 self.traits[(cname, n)] = t
+        import os as _os
+        self.desugared = 0
+        if not _os.environ.get("VERIF_NO_DESUGAR"):
+            self.desugar_all()
+
+    def desugar_all(self):
+        """write out every Option / Result / bool combinator call (with a closure created in the same body) as the `match` it stands for"""
+        from .inline import desugar
+        n = 0
+        for key, f in list(self.fns.items()):
+            if f.kind == "promoted":
+                continue
+            g = desugar(self, f)
+            if g is not f:
+                self.fns[key] = g
+                self.crates[key[0]]["fns"][key[1]] = g.j
+                n += getattr(g, "desugared", 1)
+        self.desugared = n
+        return n
 
     def fn(self, crate, name):
         """lookup by exact def-path, or by def-path with generic segments (`::<'a>`) stripped"""
